@@ -356,8 +356,8 @@ def evaluate(ctx, model, impl, lin, cases, tag, stats):
             v = verdict.get(c["id"])
             stats["lincheck"][v] = stats["lincheck"].get(v, 0) + 1
             if v != "OK":
-                found.append(("MSPriorityQueue: a history in which no push overlaps a pop is not linearizable to the bounded max-priority queue (verified lincheck, BPQueue %d): %s" % (c["cfg"][0], v),
-                              c, {"history": lin_text(h).split("\n")}))
+                found.append(("MSPriorityQueue: a history in which no push overlaps a pop is not linearizable to the bounded max-priority queue (verified lincheck, BPQueue capacity): %s" % v,
+                              c, {"capacity": c["cfg"][0], "history": lin_text(h).split("\n")}))
     return first_div, found
 
 
@@ -368,6 +368,8 @@ def new_stats():
 
 
 def report_found(ctx, found):
+    # the smallest failing case of each kind becomes the replay
+    found = sorted(found, key=lambda f: (sum(len(t) for t in f[1]["threads"]), len(f[1]["threads"]), len(f[1]["sched"])))
     for what, c, detail in found:
         ctx.violation(what, {"case": public_case(c), "kind": c.get("kind"), "variant": VARIANTS.get(c["cfg"][3]), "detail": detail})
 
@@ -377,7 +379,7 @@ def run(ctx):
     res = vcheck.coq_build(props)
     ctx.coq_evidence(res)
     model = conc_check.build_model(ctx, "Extract_MsPq.v")
-    impl = vcheck.cxx_build(os.path.join(vcheck.VERIF, "harness/C11/main.cpp"), os.path.join(ctx.work, "harness"), hook=True, link_cds=True)
+    impl = vcheck.cxx_build(os.path.join(vcheck.VERIF, "harness/C11/main.cpp"), os.path.join(ctx.work, "harness"), hook=True, link_cds=False)
     lin = build_lincheck(ctx)
     stats = new_stats()
     if os.environ.get("VERIF_VERBOSE"): ctx.log("coq obligations, model, harness and lincheck built")
@@ -426,6 +428,7 @@ def run(ctx):
     if not res.ok:
         ctx.violation("Coq obligations of C11 do not check: %s" % (res.failed[:2],), {"theorem": [f[2] for f in res.failed], "errors": res.failed[:3]}, no_input=True)
 
+    if os.environ.get("VERIF_VERBOSE"): ctx.log("violations reported; writing evidence")
     fc_ran = False
     if C11fc is not None and hasattr(C11fc, "run_fc"):
         C11fc.run_fc(ctx)
